@@ -153,6 +153,10 @@ def arr_method(interp, a, name):
         return Builtin("cs.n_dep", lambda it, aa, k: 0 if (a.buf.symid is not None or not a.buf.prov) else 1)
     if name == "name":
         return Builtin("cs.name", lambda it, aa, k: SYMS[a.buf.symid][1] if a.buf.symid in SYMS else _unsup_name())
+    if name == "is_scalar":
+        return Builtin("cs.is_scalar", lambda it, aa, k: True if (T.is_const(a.n) and T.cval(a.n) == 1) else (False if T.is_const(a.n) else T.eq(a.n, 1)))
+    if name == "numel":
+        return Builtin("cs.numel", lambda it, aa, k: a.n)
     if name == "size1":
         return Builtin("cs.size1", lambda it, aa, k: a.n)
     if name == "shape":
